@@ -557,3 +557,242 @@ def c10_sweep_task(shard, tid, n, order, via, us_stride, us_offset, seed,
                if us_offset == 0 else [])
     af.release()
     return res
+
+
+# ======================= C13: image / preimage =======================
+def c13_sweep_task(shard, tid, npairs, order, seed, mode):
+    """Pairs (p0,q0), (p1,q1), ...: unprimed p_i, primed q_i.
+
+    npairs = 1: exhaustive (all 16 relations x all 16 sets x all qvars
+    subsets x both quantifiers); 2: all functions present (n = 4), operands
+    sampled; orders that keep pairs adjacent for preimage, any for image.
+    """
+    import dd.autoref as _autoref
+    rng = random.Random(seed)
+    n = 2 * npairs
+    ab = _autoref.BDD()
+    af = AllFunctions(n, order, mgr=ab._bdd)
+    b = af.bdd
+    names = af.names          # a,b,c,d: pairs (a,b), (c,d)
+    unp = names[0::2]
+    pri = names[1::2]
+    refs = af.refs()
+    sf = SweepFile(shard, tid, af, meta=dict(driver='c13_sweep', npairs=npairs))
+    fps = set()
+    lv = b.vars
+    adjacent = all(abs(lv[p] - lv[q]) == 1 for p, q in zip(unp, pri))
+    if mode == 'all':
+        transs = refs
+        operands = refs
+    else:
+        transs = rng.sample(refs, 24)
+        operands = rng.sample(refs, 256)
+    k = 0
+    for T in transs:
+        for fa in (False, True):
+            # ---- preimage: rename unprimed -> primed, quantify a subset of the primed
+            if adjacent:
+                for Q in subsets(pri):
+                    k += 1
+                    if mode != 'all' and rng.random() < 0.75:
+                        continue
+                    ren = dict(zip(unp, pri))
+                    if npairs > 1 and rng.random() < 0.3:
+                        ren = {unp[0]: pri[0]}             # rename only one pair
+                    by_level = (k % 3 == 0)
+                    route = ['bdd', 'autoref'][k % 2]
+                    rs = []
+                    for u in operands:
+                        try:
+                            if route == 'bdd':
+                                if by_level:
+                                    r = _bdd.preimage(T, u, {lv[x]: lv[y] for x, y in ren.items()},
+                                                      {lv[x] for x in Q}, b, forall=fa)
+                                else:
+                                    r = _bdd.preimage(T, u, dict(ren), set(Q), b, forall=fa)
+                            else:
+                                ft, fu = ab._wrap(T), ab._wrap(u)
+                                g = _autoref.preimage(ft, fu, dict(ren), set(Q), forall=fa)
+                                r = int(g)
+                                del ft, fu, g
+                        except Exception:
+                            r = 0
+                        rs.append(r)
+                    nms = sorted(ren)
+                    sf.row('row.preimage', len(rs), trans=T, names=nms,
+                           tos=[ren[x] for x in nms], qvars=list(Q), forall=fa,
+                           route=route, by_level=by_level, adjacent=True,
+                           us=operands, rs=rs)
+                    fps.add(('pre', tuple(order), T, fa, tuple(Q), tuple(nms)))
+            # ---- image: rename primed -> unprimed, quantify a subset incl. the unprimed
+            for Q in subsets(names):
+                if not set(unp) <= set(Q) and mode != 'all':
+                    continue
+                k += 1
+                if mode != 'all' and rng.random() < 0.8:
+                    continue
+                ren = dict(zip(pri, unp))
+                route = ['bdd', 'autoref'][k % 2]
+                by_level = (k % 3 == 0)
+                rs = []
+                for u in operands:
+                    try:
+                        if route == 'bdd':
+                            if by_level:
+                                r = _bdd.image(T, u, {lv[x]: lv[y] for x, y in ren.items()},
+                                               {lv[x] for x in Q}, b, forall=fa)
+                            else:
+                                r = _bdd.image(T, u, dict(ren), set(Q), b, forall=fa)
+                        else:
+                            ft, fu = ab._wrap(T), ab._wrap(u)
+                            g = _autoref.image(ft, fu, dict(ren), set(Q), forall=fa)
+                            r = int(g)
+                            del ft, fu, g
+                    except Exception:
+                        r = 0
+                    rs.append(r)
+                nms = sorted(ren)
+                sf.row('row.image', len(rs), trans=T, names=nms,
+                       tos=[ren[x] for x in nms], qvars=list(Q), forall=fa,
+                       route=route, by_level=by_level, adjacent=adjacent,
+                       us=operands, rs=rs)
+                fps.add(('img', tuple(order), T, fa, tuple(Q)))
+    sf.close()
+    res = dict(shard=shard, traces=1, events=sf.results, rows=sf.rows,
+               fingerprints=fps,
+               samples=[dict(kind='relational product sweep', order=order,
+                             call='preimage(T, u, {a: b}, Q, forall) / image(T, u, {b: a}, Q, forall)')]
+               if tid % 8 == 0 else [])
+    af.release()
+    return res
+
+
+# ======================= C18: structural views =======================
+_DOT_NODE = None
+
+
+def parse_dot(text):
+    """Trusted reader of the DOT text written by dd: nodes and edges.
+
+    Returns (nodes {id: label}, edges [(u, v, attrs)]) with string ids.
+    """
+    import re
+    nodes, edges = {}, []
+    for m in re.finditer(r'^\s*("?[\w\-@]+"?)\s*(?:->\s*("?[\w\-@]+"?))?\s*\[(.*?)\];?\s*$',
+                         text, re.M):
+        a, bb, attrs = m.group(1), m.group(2), m.group(3)
+        ad = dict(re.findall(r'(\w+)\s*=\s*"?([^",\]]*)"?', attrs))
+        if bb is None:
+            nodes[a.strip('"')] = ad
+        else:
+            edges.append((a.strip('"'), bb.strip('"'), ad))
+    return nodes, edges
+
+
+def c18_sweep_task(shard, tid, n, order, via, us_stride, us_offset, seed, tmpdir):
+    import os
+    import dd.autoref as _autoref
+    rng = random.Random(seed)
+    os.makedirs(tmpdir, exist_ok=True)
+    ab = _autoref.BDD()
+    af = AllFunctions(n, order, via=via, mgr=ab._bdd)
+    b = af.bdd
+    refs = af.refs()[us_offset::us_stride]
+    sf = SweepFile(shard, tid, af, meta=dict(driver='c18_sweep', n=n))
+    fps = set()
+    # ---- Shannon expansion through Function.var/low/high/negated/level and BDD.succ
+    for route in ('Function', 'succ'):
+        vars_, lows, highs, negs, levels = [], [], [], [], []
+        for u in refs:
+            try:
+                if route == 'Function':
+                    f = ab._wrap(u)
+                    v = f.var
+                    lo, hi = f.low, f.high
+                    vars_.append(v if v is not None else '')
+                    lows.append(int(lo) if lo is not None else 0)
+                    highs.append(int(hi) if hi is not None else 0)
+                    negs.append(bool(f.negated))
+                    levels.append(int(f.level) if v is not None else -1)
+                    del f, lo, hi
+                else:
+                    lvl, lo, hi = b.succ(u)
+                    if lo is None:
+                        vars_.append(''); lows.append(0); highs.append(0)
+                        negs.append(u < 0); levels.append(-1)
+                    else:
+                        vars_.append(b.var_at_level(lvl)); lows.append(int(lo))
+                        highs.append(int(hi)); negs.append(u < 0)
+                        levels.append(int(lvl))
+            except Exception:
+                vars_.append('?'); lows.append(0); highs.append(0)
+                negs.append(False); levels.append(-2)
+        sf.row('row.shannon', len(refs), route=route, us=refs, vars=vars_,
+               lows=lows, highs=highs, negs=negs, levels=levels)
+    # ---- descendants of sets of 1-3 roots
+    rootsets = [[u] for u in refs[:64]] + [rng.sample(refs, rng.randint(2, 3)) for _ in range(64)]
+    sets = [sorted(safe(lambda: b.descendants(rs), {0})) for rs in rootsets]
+    sf.row('row.descendants', len(rootsets), rootsets=rootsets, sets=sets)
+    # ---- sizes: len(Function), dag_size
+    sizes = []
+    for i, u in enumerate(refs):
+        try:
+            f = ab._wrap(u)
+            sizes.append(len(f) if i % 2 else f.dag_size)
+            del f
+        except Exception:
+            sizes.append(-1)
+    sf.row('row.size', len(refs), us=refs, sizes=sizes)
+    # ---- exported graphs: to_nx and DOT
+    for kind in ('nx', 'dot'):
+        graphs = []
+        for rs in rootsets[::4]:
+            try:
+                if kind == 'nx':
+                    g = _bdd.to_nx(b, set(rs))
+                    nodes = [[int(x), int(d['level'])] for x, d in g.nodes(data=True)]
+                    edges = [[int(x), int(y), bool(d['value']), bool(d['complement'])]
+                             for x, y, d in g.edges(data=True)]
+                else:
+                    fn = os.path.join(tmpdir, 'g_%d_%d.dot' % (os.getpid(), tid))
+                    b.dump(fn, roots=list(rs), filetype='dot')
+                    with open(fn) as fh:
+                        txt = fh.read()
+                    dn, de = parse_dot(txt)
+                    lv = {str(l): l for l in range(n + 1)}
+                    nodes, edges = [], []
+                    for nid, ad in dn.items():
+                        if nid.isdigit():
+                            # label "<var>-<id>"; the level comes from the rank subgraph:
+                            # recover it from the variable name in the label
+                            lab = ad.get('label', '')
+                            var = lab.rsplit('-', 1)[0]
+                            level = b.vars[var] if var in b.vars else n
+                            nodes.append([int(nid), int(level)])
+                    for x, y, ad in de:
+                        if x.isdigit() and y.isdigit():
+                            edges.append([int(x), int(y), ad.get('style') == 'solid',
+                                          ad.get('taillabel') == '-1'])
+                    # external references
+                    roots_seen = []
+                    for x, y, ad in de:
+                        if x.startswith('ref') and y.isdigit():
+                            r = int(x[3:])
+                            sign_ok = (ad.get('taillabel') == '-1') == (r < 0) and abs(r) == int(y)
+                            roots_seen.append(r if sign_ok else 0)
+                    if sorted(roots_seen) != sorted(set(rs)):
+                        nodes.append([0, -1])          # makes the graph fail
+                graphs.append(dict(nodes=nodes, edges=edges, roots=list(rs)))
+            except Exception:
+                graphs.append(dict(nodes=[[0, -1]], edges=[], roots=list(rs)))
+        sf.row('row.graph', len(graphs), kind=kind, graphs=graphs)
+        fps |= {('graph', kind, n, tuple(order), tuple(g['roots'])) for g in graphs}
+    sf.close()
+    fps |= {('shannon', n, tuple(order), u) for u in refs[:2048]}
+    res = dict(shard=shard, traces=1, events=sf.results, rows=sf.rows,
+               fingerprints=fps,
+               samples=[dict(kind='views sweep', n=n, order=order,
+                             checks='Function.var/low/high/negated/level, BDD.succ, descendants, len, dag_size, to_nx, DOT')]
+               if us_offset == 0 else [])
+    af.release()
+    return res
